@@ -256,7 +256,7 @@ def gen_block(rng, focus, dflt, tag, base=None):
                      ('SLICING_PRMS', 'height_scale_kwargs', 'min_range'),
                      ('LAYERING_PRMS', 'gmm_kwargs', 'mode'))
     a.update(prmspace.gen_leaf_values(rng, dflt, must=[focus] if focus else (),
-                                      n_leaves=0 if hard else None,
+                                      n_leaves=0 if hard else None, allow_default=0.25,
                                       exclude=[q for q in (base or {}) if q != focus]))
     p = prmspace.poison_values(rng, a, dflt)
     aj, pj = _leaves_json(a), _leaves_json(p)
@@ -275,6 +275,14 @@ def gen_block(rng, focus, dflt, tag, base=None):
     if ops[-1][1] is not None:
         ops.append(['reset', None])
     ops += [['poison', pj], ['percall', aj, unknown, f'{tag}:P']]
+    if rng.random() < 0.6:
+        # every leaf of the global poisoned, every leaf named explicitly per call: the effective
+        # values are those of the first per-call run, whatever stage reads the live global
+        full = {q: get_path(dflt, q) for q in prmspace.PROCESSING_LEAVES}
+        full.update(a)
+        pall = prmspace.all_leaves_poison(rng, dflt, avoid_leaves=full)
+        ops += [['reset', None], ['poison', _leaves_json(pall)],
+                ['percall', _leaves_json(full), [], f'{tag}:F']]
     # reach: for up to 3 poisoned leaves, is the leaf live for (scene, A, w)?
     ops.append(['reset', None])
     probe_paths = list(p)
